@@ -1,4 +1,5 @@
 import Cell2v.Lemmas.Center
+import Cell2v.Model.CenterRemote
 /-!
 C18 — property theorems (MMO centre: no double character load; account transactions never
 overlap).  Only property statements, non-vacuity examples and a mutant witness live here.
@@ -501,6 +502,80 @@ first is reported closed, the logic server answers the offline request, the park
 three acknowledgements for three distinct requests -/
 example : ackIds 1 (run [.login 1 1 1 true, .logined 1 true none, .login 1 2 2 true, .login 1 1 3 true,
     .closed 1 none, .offReply 1 none]).2 = [1, 2, 3] := by decide
+
+/-! ### the remote API (`center_remote.go`): what the callers are told -/
+section Remote
+open Cell2v.Center.Remote
+
+/-- The remote API grants (`NormalAck{Succ}`) exactly the logout / line-switch requests the manager accepted,
+and answers `ErrFaild` to exactly those it refused: the caller's view of its transaction is the manager's. -/
+theorem remote_grants_iff_accepted (s : State) (op : Op) (h : Op.isRequest op = true) :
+    (reply op (step s op).2 = .normal .succ ↔ (step s op).2.ret = some true) ∧
+    (reply op (step s op).2 = .normal .faild ↔ (step s op).2.ret = some false) := by
+  cases op <;> simp [Op.isRequest] at h <;> simp only [reply, codeOf, step]
+  · rename_i u; by_cases hb : (logoutReqOp s.now (s.accts u)).2 = true <;> simp [hb]
+  · rename_i u; by_cases hb : (swBeginOp s.now (s.accts u)).2 = true <;> simp [hb]
+  · rename_i u; by_cases hb : (swEndOp (s.accts u)).2 = true <;> simp [hb]
+
+/-- **Refused while held, as told to the caller**: after any history, if a transaction holds account `u` (open and
+within its time limit), the remote API answers a logout request and a line-switch request with `ErrFaild`. -/
+theorem remote_refuses_while_held (ops : List Op) (u : Nat)
+    (h : held ((ledgerAfter ops).led u) (ledgerAfter ops).now = true) :
+    reply (.logoutReq u) (step (run ops).1 (.logoutReq u)).2 = .normal .faild ∧
+    reply (.swBegin u) (step (run ops).1 (.swBegin u)).2 = .normal .faild := by
+  obtain ⟨h1, h2, _⟩ := refused_while_held ops u h
+  exact ⟨((remote_grants_iff_accepted _ (.logoutReq u) rfl).2).2 h1, ((remote_grants_iff_accepted _ (.swBegin u) rfl).2).2 h2⟩
+
+/-- non-vacuity: the reconnect transaction holds the account, the logout request is answered `ErrFaild` -/
+example : held ((ledgerAfter [.login 1 1 1 true, .logined 1 true none, .closed 1 none, .login 1 1 2 true]).led 1)
+      (ledgerAfter [.login 1 1 1 true, .logined 1 true none, .closed 1 none, .login 1 1 2 true]).now = true ∧
+    reply (.logoutReq 1) (step (run [.login 1 1 1 true, .logined 1 true none, .closed 1 none, .login 1 1 2 true]).1 (.logoutReq 1)).2
+      = .normal .faild := by decide
+
+/-- A granted request took the account: the remote API answers `Succ` to a logout / line-switch request only
+when, afterwards, the account's lock is held by that very transaction until `now + 3 min`. -/
+theorem remote_grant_takes_lock (s : State) (u : Nat) :
+    (reply (.logoutReq u) (step s (.logoutReq u)).2 = .normal .succ →
+      ∃ p, ((step s (.logoutReq u)).1.accts u).player = some p ∧ p.lock = ⟨true, .logout, s.now + LockTimeout⟩) ∧
+    (reply (.swBegin u) (step s (.swBegin u)).2 = .normal .succ →
+      ∃ p, ((step s (.swBegin u)).1.accts u).player = some p ∧ p.lock = ⟨true, .switchLine, s.now + LockTimeout⟩) := by
+  constructor
+  · intro h
+    rw [(remote_grants_iff_accepted s (.logoutReq u) rfl).1] at h
+    simp only [step, logoutReqOp] at h ⊢
+    cases hp : (s.accts u).player with
+    | none => simp [hp] at h
+    | some p =>
+      simp only [hp] at h ⊢
+      cases hl : p.lock.tryLock s.now .logout LockTimeout with
+      | none => simp [hl] at h
+      | some l =>
+        simp only [Lock.tryLock] at hl
+        split at hl <;> simp at hl
+        simp [setAcct, upd, ← hl]
+  · intro h
+    rw [(remote_grants_iff_accepted s (.swBegin u) rfl).1] at h
+    simp only [step, swBeginOp] at h ⊢
+    cases hp : (s.accts u).player with
+    | none => simp [hp] at h
+    | some p =>
+      simp only [hp] at h ⊢
+      by_cases hs : p.state = .logined
+      · cases hl : p.lock.tryLock s.now .switchLine LockTimeout with
+        | none => simp [hs, hl] at h
+        | some l =>
+          simp only [Lock.tryLock] at hl
+          split at hl <;> simp at hl
+          simp [hs, setAcct, upd, ← hl]
+      · simp [hs] at h
+
+/-- notifications (logined, re-online, logout done, abnormal logout) are acknowledged `Succ` whatever the manager did
+with them; the close report is acknowledged without a body; a login is answered through its callback only -/
+theorem remote_notifications_acknowledged (op : Op) (out : Out) (h : Op.isRequest op = false) :
+    reply op out = .normal .succ ∨ reply op out = .empty ∨ reply op out = .later ∨ reply op out = .notRemote := by
+  cases op <;> simp [Op.isRequest] at h <;> simp [reply]
+
+end Remote
 
 /-! ### a mutant: `ReqLogin` that reconnects without looking at the player's state -/
 
